@@ -1104,4 +1104,42 @@ def rule_convert(ctx):
     return r
 
 
-RULES = [rule_convert, rule_emptyok, rule_dispatch, rule_keys, rule_infer, rule_topo, rule_linear, rule_ssaid, rule_edge, rule_count]
+def rule_onetensor(ctx):
+    """(seed C10_11) A one-tensor tree has an empty path under *every* traversal order.  Its root is a leaf without a
+    `children` entry, which the ordered traversal reads for every node it yields: in `traverse`, an exit taken for
+    `N == 1` dominates the dispatch to the ordered traversal (a guard inside the depth-first traversal alone covers
+    only the default order of the plain tree — the compressed tree's default order, and every callable order, are
+    not depth-first)."""
+    r = RuleResult("C10-ONETENSOR", "every traversal order yields nothing for a one-tensor tree", 1)
+    tc = ctx.p.cls(C.CORE, "ContractionTree")
+    f = tc.lookup("traverse")
+    C.require(f is not None, "traverse not found")
+    fl = ctx.flow(f)
+    cfg = fl.cfg
+    k = ctx.key(f, "C10-ONETENSOR")
+    disp = [n for n, c in fl.calls() if isinstance(c.func, ast.Attribute) and c.func.attr == "_traverse_ordered"]
+    C.require(disp, "traverse: dispatch to _traverse_ordered not found")
+    guards = []
+    for n in cfg.nodes:
+        if n.kind == "test" and isinstance(n.ast, ast.If):
+            t = n.ast.test
+            txt = C.unparse(t).replace(" ", "")
+            if any(p_ in txt for p_ in ("self.N==1", "self.N<=1", "self.N<2", "1==self.N")) and n.ast.body and \
+                    isinstance(n.ast.body[-1], ast.Return):
+                guards.append(n)
+    callee = tc.lookup("_traverse_ordered")
+    own = False
+    if callee is not None:
+        first = callee.node.body[1] if (callee.node.body and isinstance(callee.node.body[0], ast.Expr) and
+                                         isinstance(callee.node.body[0].value, ast.Constant) and len(callee.node.body) > 1) else callee.node.body[0]
+        own = isinstance(first, ast.If) and "self.N" in C.unparse(first.test) and first.body and isinstance(first.body[-1], ast.Return)
+    if own or (guards and all(any(cfg.dominates(g.id, d.id) for g in guards) for d in disp)):
+        r.ok(k, C.loc(f, (guards[0].ast if guards else callee.node)), "the one-tensor exit is taken before any ordered traversal")
+    else:
+        r.violation(k, f.loc, "no exit for `N == 1` dominates the dispatch to `_traverse_ordered`: for a one-tensor tree every order other than "
+                    "'dfs' reads `children[root]` of a leaf and raises KeyError — get_path / get_ssa_path under a callable order, and the "
+                    "compressed tree's default order")
+    return r
+
+
+RULES = [rule_onetensor, rule_convert, rule_emptyok, rule_dispatch, rule_keys, rule_infer, rule_topo, rule_linear, rule_ssaid, rule_edge, rule_count]
